@@ -508,12 +508,19 @@ def check(pid, tier, seed):
                 if not res["cex"]:
                     raise MachineryError(f"TLC reports {res['violated']} violated on {model} but no counterexample could be parsed")
                 cex_ops.append((model, res["violated"], world.conc_hist(res["cex"], world.CONCRETE["ascii"])))
+    sim_stats = None
+    sim_ops = []
+    if pid == "C10" or (tier == "thorough" and pid in ("C05", "C09", "C11", "C12")):
+        sim_h, sim_stats = world.simulate(24 if tier == "quick" else 400, 10, seed + 1, timeout=sz["mc_timeout"])
+        for k, (h, _l, _s) in enumerate(sim_h):
+            sim_ops.append(world.conc_hist(h, world.CONCRETE[CMAPS[tier][k % len(CMAPS[tier])]]))
     opts = {"probe_cap": sz["probe_cap"] if pid in QUERY_PROPS else 10, "full_n": 10 if pid == "C08" else 0,
             "probe_inputs": pid == "C10", "methods": METHODS[pid]}
     oplists = [ops for _, _, ops in cex_ops]
     n_cex = len(oplists)
     oplists += oplists_from_hists(pid, hists, CMAPS[tier], rng, sz["hist"])
     n_hist = len(oplists) - n_cex
+    oplists += sim_ops
     oplists += random_oplists(pid, rng, sz["random"])
     batch = world.execute(oplists, seed, opts, {pid})
     fails, st = tlc.validate_traces(batch, timeout=sz["tr_timeout"])
@@ -576,7 +583,7 @@ def check(pid, tier, seed):
                 "distinct operation lists executed on the implementation (each creates at least one converter and is followed by a probe table)",
         "exhaustive": all(not m["violated"] for m in models),
         "models": models, "trace_events": n_events, "event_kinds": kinds,
-        "repository_tests_as_driver": repo, "behaviours_from_tlc": n_hist, "spec_signature_coverage": STRATA.get(pid), "behaviours_random": len(oplists) - n_hist - n_cex,
+        "simulation": sim_stats, "repository_tests_as_driver": repo, "behaviours_from_tlc": n_hist, "spec_signature_coverage": STRATA.get(pid), "behaviours_from_simulation": len(sim_ops), "behaviours_random": len(oplists) - n_hist - n_cex - len(sim_ops),
         "concretisations": CMAPS[tier], "trace_validation": st,
         "other_clauses_failed": other, "known_findings": [k["id"] for k in known],
         "checker_cmd": "tlc -workers 16 spec/mc/MC_*.tla ; TRACE_FILE=<batch> tlc spec/Trace.tla",
